@@ -1,4 +1,7 @@
+import props as _props
+
 PROP = {
+    "extra": [_props.race_detector_run("C11")],
     "coq": ["C11"],
     "exhaustive": False,
     "rule": "Real server on loopback TCP (modbus.NewServer + Start, MaxClients 16, one goroutine and one transport per accepted connection) "
